@@ -42,7 +42,7 @@ def emit_edges(u, nt, path):
     return n, r
 
 
-def split_trace(path, outdir, max_events=60000):
+def split_trace(path, outdir, max_events=30000):
     """Split a trace at Anchor/Reset lines into chunks of <= max_events (each chunk starts with one)."""
     chunks, cur, cnt = [], None, 0
     idx = 0
@@ -122,7 +122,7 @@ def short(ev):
 
 def run_driver(args, out, stats):
     drv = os.path.join(vlib.BUILD_DIR, "storedrv")
-    p = vlib.run([drv] + args + ["-universe", UNI, "-out", out, "-stats", stats, "-seed", str(vlib.seed())],
+    p = vlib.run([drv] + args + ["-universe", UNI, "-out", out, "-stats", stats, "-seed", str(vlib.seed()), "-anchor-every", "10000"],
                  timeout=3600, check=False)
     if p.returncode != 0:
         raise Infra("storedrv failed rc=%d: %s" % (p.returncode, p.stderr[-2000:]))
@@ -146,7 +146,9 @@ def check(prop):
         tr = os.path.join(d, "tour.ndjson")
         args = ["tour", "-edges", edges, "-names", ",".join(NAMES2)]
         if prop == "C02":
-            args += ["-lookups", "-sample-lookups", "40" if tier == "quick" else "200"]
+            args += ["-lookups", "-sample-lookups", "700" if tier == "quick" else "200"]
+            if tier == "quick":
+                args += ["-one-graph"]
         st = run_driver(args, tr, os.path.join(d, "tour.stats"))
         if st["edges_taken"] != nedges:
             v.notes.append("tour covered %d of %d edges (desync %d)" % (st["edges_taken"], nedges, st["desync"]))
@@ -157,7 +159,7 @@ def check(prop):
         steps = 3000 if tier == "quick" else 60000
         args = ["random", "-names", ",".join(NAMES3), "-steps", str(steps)]
         if prop == "C02":
-            args += ["-lookups"]
+            args += ["-lookups", "-lookup-every", "80" if tier == "quick" else "25"]
         st2 = run_driver(args, tr2, os.path.join(d, "random.stats"))
         rej2, opens2, states2, nev2 = validate(u, NAMES3, tr2, workers=12)
         total_rejects += rej2
